@@ -215,6 +215,58 @@ class C14(Prop):
                 L.append("wbuf %s %s" % (d, p))
         return L
 
+    def chunk_cases(self, tier, rng):
+        """`Frame::Data` over a payload `B: Buf` that is not contiguous (`datac:<hex>|<hex>|…`: two segments = a real
+        `bytes::buf::Chain<Bytes, Bytes>`, otherwise a deque of `Bytes`): EVERY 2-way split of payloads of 0..6 bytes (empty
+        first / empty second segment included), the splits of 63 / 64 / 16383 / 16384 bytes that put the total and the first
+        segment on different sides of a length-varint boundary, sampled 3- and 4-way splits with empty segments anywhere
+        (first included), the same behind a stream type (`pair:`), each under the acceptance patterns of the flat frames."""
+        big = tier == "thorough"
+        L = []
+
+        def seg(bs):
+            return hx(bs) if bs else "-"
+
+        descs = []
+        for n in range(0, 7):
+            b = body(n, rng)
+            for i in range(0, n + 1):
+                descs.append("datac:%s|%s" % (seg(b[:i]), seg(b[i:])))
+        for n in (63, 64, 65, 100, 16383, 16384, 16385):
+            b = body(n, rng)
+            cuts = sorted(set([0, 1, 2, 62, 63, 64, n - 64, n - 63, n - 1, n] + [rng.randrange(0, n + 1) for _ in range(4 if big else 2)]))
+            for i in cuts:
+                if 0 <= i <= n:
+                    descs.append("datac:%s|%s" % (seg(b[:i]), seg(b[i:])))
+        for _ in range(120 if big else 40):
+            n = rng.choice([0, 1, 2, 3, 5, 8, 17, 63, 64, 65, 200, 16384])
+            b = body(n, rng)
+            k = rng.choice([3, 3, 3, 4])
+            cuts = sorted(rng.randrange(0, n + 1) for _ in range(k - 1))
+            r = rng.random()
+            if r < 0.35:
+                cuts[0] = 0                      # empty first segment
+            elif r < 0.5:
+                cuts[-1] = n                     # empty last segment
+            elif r < 0.6 and k > 2:
+                cuts[1] = cuts[0]                # empty segment in the middle
+            cuts = sorted(cuts)
+            parts = [b[x:y] for x, y in zip([0] + cuts, cuts + [n])]
+            descs.append("datac:" + "|".join(seg(q) for q in parts))
+        descs += ["datac:-", "datac:-|-|-", "datac:aa", "datac:-|-|-|aa"]
+        for d in list(descs):
+            if rng.random() < 0.15:
+                descs.append("pair:%d:%s" % (rng.choice([0x41, 33, 31 * 7 + 33, 2**30]), d))
+        for d in descs:
+            pats = ["-", "1", ",".join(["1"] * 12), "0,1,0,0,2,0,3", "100000", "2,100000", "3,100000", "a2,100", "a3,1", "a70"]
+            for _ in range(4 if big else 2):
+                pats.append(",".join(str(rng.choice([0, 1, 1, 2, 3, 7, 100])) for _ in range(rng.randrange(1, 14))))
+            if rng.random() < 0.5:
+                pats.append(",".join(rng.choice(["a%d" % rng.randrange(0, 8), str(rng.randrange(0, 9))]) for _ in range(rng.randrange(1, 6))))
+            for pt in pats:
+                L.append("wbuf %s %s" % (d, pt))
+        return L
+
     def cfg(self, rng, server, grease, limited):
         parts = ["g1" if grease else "g0"]
         if rng.random() < 0.6:
@@ -548,7 +600,7 @@ class C14(Prop):
         return L
 
     def cases(self, tier, rng):
-        return self.wbuf_cases(tier, rng) + self.out_cases(tier, rng) + self.grease_backpressure_cases(tier, rng)
+        return self.wbuf_cases(tier, rng) + self.chunk_cases(tier, rng) + self.out_cases(tier, rng) + self.grease_backpressure_cases(tier, rng)
 
     def extra(self, tier, rng, ctx):
         # latent, outside the property's quantifier (h3 never sends PUSH_PROMISE and has no API to
